@@ -203,7 +203,7 @@ theorem hdr_incomplete (cfg : ChunkSigned.Cfg) (st : ChunkSigned.State) (A F X :
 theorem par_unfold_final (cfg : ChunkSigned.Cfg) (fuel : Nat) (st st1 st2 st3 : ChunkSigned.State)
     (p sig : Bytes) (off : Int)
     (hchk : (if st.parsedSig ≠ [] then ChunkSigned.checkSignature cfg st else .ok st) = .ok st1)
-    (hhdr : ChunkSigned.parseChunkHeaderBytes cfg st1 p = (st2, .chunk 0 sig off))
+    (hhdr : ChunkSigned.parseChunkHeaderBytes cfg st1 p = (st2, .chunk 0 sig off)) (hne : sig ≠ [])
     (hsig : ChunkSigned.checkSignature cfg { st2 with parsedSig := sig, chunkAcc := [] } = .ok st3)
     (hver : cfg.trailer ≠ [] → ChunkSigned.verifyChecksum cfg st3 = .ok () ∧
       ChunkSigned.verifyTrailerSignature cfg st3 = .ok ()) :
@@ -213,7 +213,7 @@ theorem par_unfold_final (cfg : ChunkSigned.Cfg) (fuel : Nat) (st st1 st2 st3 : 
   simp only [hchk]
   unfold ChunkSigned.parBody
   rw [hhdr]
-  simp only [show ((0 : Int) == 0) = true from rfl, if_true, ChunkSigned.finalChunk, hsig]
+  simp only [if_neg hne, show ((0 : Int) == 0) = true from rfl, if_true, ChunkSigned.finalChunk, hsig]
   by_cases ht : cfg.trailer = []
   · simp [ht]
   · simp [ht, (hver ht).1, (hver ht).2]
@@ -221,13 +221,13 @@ theorem par_unfold_final (cfg : ChunkSigned.Cfg) (fuel : Nat) (st st1 st2 st3 : 
 theorem par_unfold_cont (cfg : ChunkSigned.Cfg) (fuel : Nat) (st st1 st2 : ChunkSigned.State)
     (p sig : Bytes) (n off : Int)
     (hchk : (if st.parsedSig ≠ [] then ChunkSigned.checkSignature cfg st else .ok st) = .ok st1)
-    (hhdr : ChunkSigned.parseChunkHeaderBytes cfg st1 p = (st2, .chunk n sig off)) (hn0 : n ≠ 0) :
+    (hhdr : ChunkSigned.parseChunkHeaderBytes cfg st1 p = (st2, .chunk n sig off)) (hne : sig ≠ []) (hn0 : n ≠ 0) :
     ChunkSigned.parseAndRemove cfg (fuel + 1) st p =
       cont cfg (ChunkSigned.parseAndRemove cfg fuel) { st2 with parsedSig := sig } n off p := by
   rw [ChunkSigned.parseAndRemove]
   unfold ChunkSigned.parStep
   simp only [hchk]
-  exact parBody_chunk cfg _ st1 st2 p sig n off hhdr hn0
+  exact parBody_chunk cfg _ st1 st2 p sig n off hhdr hne hn0
 
 /-- `cont` when the buffer ends inside (or at the end of) the chunk data -/
 theorem cont_data (cfg : ChunkSigned.Cfg) (K : ChunkSigned.State → Bytes → Res) (sL : ChunkSigned.State)
@@ -348,7 +348,7 @@ theorem par_chunks (P : Params) (tr : Bool) (L : Nat) (H : SignedHyps P tr L) :
                      parsedChecksum := (if tr = true then checksumB64 P acc else []) }
          else st1) with parsedSig := chunkSig P prev [], chunkAcc := [] }
       (by cases tr <;> simp [signedCfg, hprev', H.name_ne])
-    refine ⟨_, par_unfold_final _ fuel st st1 _ _ _ _ 0 hchk hhdr hsig ?_⟩
+    refine ⟨_, par_unfold_final _ fuel st st1 _ _ _ _ 0 hchk hhdr (chunkSig_ne_nil H.hmac_ne _ _) hsig ?_⟩
     intro ht
     cases tr with
     | false => simp [signedCfg] at ht
@@ -385,7 +385,7 @@ theorem par_chunks (P : Params) (tr : Bool) (L : Nat) (H : SignedHyps P tr L) :
     have hstream : preOf st.isFirstHeader ++ renderSigned P tr prev acc ((h, d) :: cs) hz =
         preOf st1.isFirstHeader ++ ((h ++ sigIntro ++ sig) ++ 13 :: 10 :: (d ++ crlf ++ R)) := by
       simp [renderSigned, hfh, crlf, R, sig]
-    rw [hstream, par_unfold_cont _ fuel st st1 _ _ sig _ _ hchk hhdr hn0]
+    rw [hstream, par_unfold_cont _ fuel st st1 _ _ sig _ _ hchk hhdr (chunkSig_ne_nil H.hmac_ne _ _) hn0]
     -- the recursive call
     obtain ⟨st4, hr⟩ := ih hz
       (ChunkSigned.hashWrite (signedCfg P tr L) { ({ st1 with isFirstHeader := false } : ChunkSigned.State) with
@@ -505,7 +505,7 @@ theorem par_prefix (P : Params) (tr : Bool) (L : Nat) (H : SignedHyps P tr L) :
       subst hF
       have hhdr := hdr_chunk (signedCfg P tr L) st1 _ F' sig _ (hstash.trans hb.stash) (hcoreR F') hn0 h13
       have e2 : Hd ++ F' = preOf st1.isFirstHeader ++ ((h ++ sigIntro ++ sig) ++ 13 :: 10 :: F') := by simp [Hd]
-      rw [e2, par_unfold_cont _ fuel st st1 _ _ sig _ _ hchk hhdr hn0, ← e2]
+      rw [e2, par_unfold_cont _ fuel st st1 _ _ sig _ _ hchk hhdr (chunkSig_ne_nil H.hmac_ne _ _) hn0, ← e2]
       have hHdl : Hd.length = (preOf st1.isFirstHeader).length + (h ++ sigIntro ++ sig).length + 2 := by
         simp [Hd]; omega
       by_cases hle : F'.length ≤ d.length
